@@ -229,14 +229,7 @@ bool Executor::native(State &s, CallBase *cb, Function *f, std::vector<Val> &a, 
             }
             assertsSymbolic++; s.assertedSomething = true;
             z3::expr ce = c.bits == 1 ? toBool(c) : (toBV(c) != ZC->bv_val(0, c.bits));
-            z3::expr neg = !ce;
-            z3::model m(*ZC);
-            z3::check_result r = check(s, neg, opt.assertTimeoutMs, &m);
-            if (r == z3::unknown) { inconclusive = true; inconclusiveWhy = "solver gave no verdict within budget for assertion '" + msg + "' at " + locOf(cb); }
-            else if (r == z3::sat) {
-                Failure fl; fl.kind = "assert"; fl.msg = msg; fl.loc = locOf(cb); fl.func = s.stack.back().fn->getName().str();
-                std::string key = "assert|" + msg + "|" + fl.loc;
-                if (!opt.dedupFailures || !failureKeys.count(key)) { failureKeys.insert(key); fillModel(s, fl, &m); failures.push_back(fl); }
+            if (report(s, "assert", msg, cb, !ce, true)) {
                 bool unk; if (!mayBeTrue(s, ce, unk)) { ended = true; return false; }
             }
             addPC(s, ce);
@@ -250,7 +243,11 @@ bool Executor::native(State &s, CallBase *cb, Function *f, std::vector<Val> &a, 
         if (n == "nixsym_trace_f64") { std::ostringstream o; char b[64]; snprintf(b, sizeof b, "%a", a[1].k == Val::FP ? asF64(a[1]) : 0.0); o << nameArg(0) << "=" << (a[1].k == Val::FP ? b : "<sym>"); s.trace.push_back(o.str()); return true; }
         if (n == "nixsym_trace_str") { s.trace.push_back(nameArg(0) + "=" + readCString(s, a[1].lo)); return true; }
         if (n == "nixsym_finding") {
-            // (id, cond): harness marks that the current path lies inside a known finding's predicate
+            // (id, cond): the harness states the predicate of a known finding over its symbolic inputs
+            Val c = a[1];
+            z3::expr ce = (c.k == Val::INT || c.k == Val::UNDEF) ? ZC->bool_val(c.bits == 1 ? (c.lo & 1) : c.lo != 0)
+                                                                  : (c.bits == 1 ? toBool(c) : (toBV(c) != ZC->bv_val(0, c.bits)));
+            s.known.push_back({nameArg(0), ce});
             return true;
         }
         if (n == "nixsym_print") { if (opt.verbose) errs() << "[harness] " << nameArg(0) << "\n"; return true; }
